@@ -186,6 +186,11 @@ Proof.
 Qed.
 
 (* ---------- object-cache serialized length ---------- *)
+(* [injection] on these hypotheses does not terminate in reasonable time (it normalises the
+   big N literals in the remaining branches); a plain lemma avoids it *)
+Lemma Some_inj {A} (a b : A) : Some a = Some b -> a = b.
+Proof. intros H. injection H as H. exact H. Qed.
+
 Lemma serialized_length_atom_spec b e : ser_atom b = Some e -> blen b < 4294967291 ->
   serialized_length_atom b = Ok (blen e).
 Proof.
@@ -196,11 +201,11 @@ Proof.
   destruct ((blen b =? 1) && (atom_0 b <? 128)) eqn:E1.
   { injection Ep as <-. cbn [orb]. apply andb_prop in E1. destruct E1 as [E1 _]. f_equal. cbn. lia. }
   cbn [orb].
-  destruct (blen b <? 64); [injection Ep as <-; reflexivity|].
-  destruct (blen b <? 8192); [injection Ep as <-; reflexivity|].
-  destruct (blen b <? 1048576); [injection Ep as <-; reflexivity|].
-  destruct (blen b <? 134217728); [injection Ep as <-; reflexivity|].
-  destruct (blen b <? 17179869184); [|discriminate]. injection Ep as <-.
+  destruct (blen b <? 64); [apply Some_inj in Ep; subst p; reflexivity|].
+  destruct (blen b <? 8192); [apply Some_inj in Ep; subst p; reflexivity|].
+  destruct (blen b <? 1048576); [apply Some_inj in Ep; subst p; reflexivity|].
+  destruct (blen b <? 134217728); [apply Some_inj in Ep; subst p; reflexivity|].
+  destruct (blen b <? 17179869184); [|discriminate]. apply Some_inj in Ep; subst p.
   destruct (N.ltb_spec (5 + blen b) 4294967296); [reflexivity|lia].
 Qed.
 
@@ -216,4 +221,59 @@ Proof.
     cbn. rewrite (IHl a eq_refl) by (unfold blen; lia). cbn [bind].
     rewrite (IHr c eq_refl) by (unfold blen; lia). cbn [bind]. f_equal.
     unfold sat_add64, blen. cbn [length]. rewrite app_length. lia.
+Qed.
+
+(* ---------- LimitedWriter under an arbitrary sequence of write_all calls ---------- *)
+Fixpoint lw_writes (w : lwriter) (chunks : list bytes) : option lwriter :=
+  match chunks with
+  | [] => Some w
+  | c :: cs => match lw_write w c with Some w1 => lw_writes w1 cs | None => None end
+  end.
+
+Theorem lw_writes_spec : forall chunks w,
+  lw_writes w chunks =
+    if blen (concat chunks) <=? lw_limit w
+    then Some {| lw_out := lw_out w ++ concat chunks; lw_limit := lw_limit w - blen (concat chunks) |}
+    else None.
+Proof.
+  induction chunks as [|c cs IH]; intros w; cbn [lw_writes concat].
+  - destruct w as [o l]. cbn. rewrite app_nil_r, N.sub_0_r. destruct (N.leb_spec 0 l); [reflexivity|lia].
+  - rewrite lw_write_spec, blen_app. destruct (N.ltb_spec (lw_limit w) (blen c)).
+    + destruct (N.leb_spec (blen c + blen (concat cs)) (lw_limit w)); [lia|reflexivity].
+    + rewrite IH. cbn [lw_limit lw_out].
+      destruct (N.leb_spec (blen (concat cs)) (lw_limit w - blen c));
+        destruct (N.leb_spec (blen c + blen (concat cs)) (lw_limit w)); try lia; [|reflexivity].
+      f_equal. f_equal; [rewrite <- app_assoc; reflexivity|lia].
+Qed.
+
+(* ---------- node_from_stream (ser t ++ rest) ---------- *)
+Theorem node_from_stream_ser : forall t e rest, wf_sexp t = true -> ser t = Some e ->
+  node_from_stream (e ++ rest) = Ok (t, rest).
+Proof. intros t e rest Hwf Hs. rewrite node_from_stream_parse. apply parse_ser; assumption. Qed.
+
+Theorem trusted_length_ser : forall t e rest, wf_sexp t = true -> ser t = Some e ->
+  serialized_length_trusted (e ++ rest) = Ok (blen e).
+Proof.
+  intros t e rest Hwf Hs. rewrite (trusted_length_parse _ t rest) by (apply parse_ser; assumption).
+  f_equal. rewrite blen_app. lia.
+Qed.
+
+Theorem node_to_bytes_ser : forall t e, ser t = Some e -> blen e <= 2000000 -> node_to_bytes t = Ok e.
+Proof.
+  intros t e Hs Hl. unfold node_to_bytes. rewrite (node_to_bytes_limit_spec t e) by assumption.
+  destruct (N.leb_spec (blen e) 2000000); [reflexivity|lia].
+Qed.
+
+(* ser is defined exactly when every atom is shorter than 2^34 bytes *)
+Fixpoint atoms_small (t : sexp) : bool :=
+  match t with Atom b => blen b <? 0x400000000 | Cons l r => atoms_small l && atoms_small r end.
+
+Theorem ser_defined : forall t, atoms_small t = true <-> ser t <> None.
+Proof.
+  induction t as [b|l IHl r IHr]; cbn [atoms_small ser].
+  - unfold ser_atom. destruct (N.ltb_spec (blen b) 0x400000000) as [L|L].
+    + rewrite atom_prefix_arith by assumption. split; [discriminate|reflexivity].
+    + rewrite atom_prefix_none by assumption. split; [discriminate|congruence].
+  - rewrite andb_true_iff, IHl, IHr. destruct (ser l), (ser r); split; intros H; try discriminate; try congruence;
+      try (split; discriminate); destruct H as [H1 H2]; congruence.
 Qed.
